@@ -153,3 +153,13 @@ func OsRename(oldpath, newpath string) error {
 
 // Publish, if set, replaces (*p2p.P2PNode).Publish: node is the *P2PNode.
 var Publish func(node any, ctx context.Context, topic string, message []byte) error
+
+// Yield, if set, is called at the yield points the build overlay inserts in front of statements
+// that use package sync in the HTTP API packages (site = file:line).
+var Yield func(site string)
+
+func YieldPoint(site string) {
+	if Yield != nil {
+		Yield(site)
+	}
+}
